@@ -6,10 +6,19 @@ DUR_FROM = {"from_nanos": 1, "from_micros": 1000, "from_millis": 10**6, "from_se
 DUR_AS = {"as_nanos": 1, "as_micros": 1000, "as_millis": 10**6, "as_secs": 10**9}
 
 
+RANGES = {"u8": (0, 2**8 - 1), "u16": (0, 2**16 - 1), "u32": (0, 2**32 - 1), "u64": (0, 2**64 - 1), "u128": (0, 2**128 - 1), "usize": (0, 2**64 - 1),
+          "i8": (-2**7, 2**7 - 1), "i16": (-2**15, 2**15 - 1), "i32": (-2**31, 2**31 - 1), "i64": (-2**63, 2**63 - 1), "i128": (-2**127, 2**127 - 1), "isize": (-2**63, 2**63 - 1),
+          "bool": (0, 1)}
+
+
 def ival(crate, t, env=None, depth=0):
-    env = env or {}
+    """env: list of (term, (lo, hi)) pairs giving intervals of opaque sub-terms (loop counters, parameters)."""
+    env = env or []
     if depth > 40:
         return None
+    for (et, iv) in env:
+        if et == t:
+            return iv
     k = t[0]
     if k == "const":
         v = lib.term_const(crate, t)
@@ -20,6 +29,11 @@ def ival(crate, t, env=None, depth=0):
         return ival(crate, t[1], env, depth + 1)
     if k == "cast":
         return ival(crate, t[2], env, depth + 1)
+    if k == "unop" and t[1] == "Not":
+        a = ival(crate, t[2], env, depth + 1)
+        if a and a[0] >= 0 and a[1] <= 1:
+            return (0, 1)
+        return None
     if k == "field" and t[3] == 0 and t[1][0] == "binop" and t[1][1].endswith("WithOverflow"):
         return ival(crate, ("binop", t[1][1][:-len("WithOverflow")], t[1][2], t[1][3]), env, depth + 1)
     if k == "phi":
